@@ -98,6 +98,7 @@ from .helpers import (
     strip_auth_from_url,
 )
 from .http import WS_KEY, HttpVersion, WebSocketReader, WebSocketWriter
+from .http_parser import _TARGET_FORBIDDEN_CTL_RE
 from .http_websocket import WSHandshakeError, ws_ext_gen, ws_ext_parse
 from .tracing import Trace, TraceConfig
 from .typedefs import (
@@ -841,6 +842,12 @@ class ClientSession:
                         try:
                             # bytes that are not UTF-8 arrive surrogate-escaped
                             r_url.encode("utf-8")
+                            # taken as is, it must fit in a request line
+                            if (
+                                not self._requote_redirect_url
+                                and _TARGET_FORBIDDEN_CTL_RE.search(r_url)
+                            ):
+                                raise ValueError("control character in URL")
                             parsed_redirect_url = URL(
                                 r_url, encoded=not self._requote_redirect_url
                             )
